@@ -55,7 +55,12 @@ def run(rep, tier, seed, pa):
     for case in cases[:60 if tier == "quick" else 400]:
         if case["unlabelled"] and case["spec"][0] == "comb" and case["spec"][4] != "abs":
             continue
-        I, cs, A = check_build_A(rep, pa, case)
+        try:
+            I, cs, A = check_build_A(rep, pa, case)
+        except Exception as e:      # a library call that raises on a generated continuum is a failing input, not a harness error
+            rep.violation("does-not-return:" + type(e).__name__, {"units": case["units"], "dissim": case["spec"], "error": repr(e), "call": "valid_alignments / build_A"},
+                          "valid_alignments / build_A raised %r" % (e,))
+            continue
         lines.append([7] + I.wire() + w_list(cs, w_tuple))
         metas.append((case, I, cs, A))
     outs = run_model(lines)
